@@ -94,13 +94,36 @@ Theorem crop_path_error :
     Qabs ((s0 + (inject_Z m + inject_Z i) * sres) - (d0 + inject_Z i * dres)) <= sres * (1 # 2) + Qabs dres * (1 # 10).
 Proof. exact crop_axis_error. Qed.
 
-(* Sub-extent placement (bbox_position_in_image, used when a request exceeds the layer extent / coverage):
-   convex-combination bound.  If the sub image covers the true pixel interval [P0, P2], is requested with
-   o2 - o0 pixels and pasted at o0, where o0 / o2 are P0 / P2 rounded down (or exact), every pixel boundary
-   of the sub image is pasted less than one output pixel before its true position and never after it.
-   _partial: the instantiation with the four truncated offsets of bbox_position_in_image is not proved in
-   Coq (it is checked by the oracle of the correspondence harness on every generated case). *)
-Theorem sub_extent_error_partial :
+(* Sub-extent placement (bbox_position_in_image, used when a request exceeds the layer extent / source coverage):
+   the request (b0..b2, w pixels) is cut down to the source extent (s0..s2) that meets it; the sub image is
+   requested for (n0..n2) with sw pixels and pasted at column ox.  Every pixel boundary k of the sub image (ground
+   position n0 + k/sw (n2 - n0), true output pixel position (X - b0) * w/(b2 - b0)) is pasted at column ox + k:
+   less than one output pixel before its true position and never after it (error in [0, 1)). *)
+Theorem sub_extent_error :
+  forall b0 b1 b2 b3 w h s0 s1 s2 s3 sw sh ox oy n0 n1 n2 n3 k,
+    b0 < b2 -> (0 < w)%Z ->
+    s0 <= s2 -> s0 <= b2 -> b0 <= s2 ->
+    bbox_position_in_image (b0, b1, b2, b3) w h (s0, s1, s2, s3) = ((sw, sh), (ox, oy), (n0, n1, n2, n3)) ->
+    (0 < sw)%Z -> (0 <= k <= sw)%Z ->
+    let c := inject_Z w / (b2 - b0) in
+    let X := n0 + inject_Z k / inject_Z sw * (n2 - n0) in
+    0 <= (X - b0) * c - inject_Z (ox + k) /\ (X - b0) * c - inject_Z (ox + k) < 1.
+Proof. exact sub_extent_error_x. Qed.
+
+(* The same for rows (counted from the top: oy is the row of the upper edge n3 of the sub image). *)
+Theorem sub_extent_error_rows :
+  forall b0 b1 b2 b3 w h s0 s1 s2 s3 sw sh ox oy n0 n1 n2 n3 k,
+    b1 < b3 -> (0 < h)%Z ->
+    s1 <= s3 -> s1 <= b3 -> b1 <= s3 ->
+    bbox_position_in_image (b0, b1, b2, b3) w h (s0, s1, s2, s3) = ((sw, sh), (ox, oy), (n0, n1, n2, n3)) ->
+    (0 < sh)%Z -> (0 <= k <= sh)%Z ->
+    let c := inject_Z h / (b3 - b1) in
+    let Y := n3 - inject_Z k / inject_Z sh * (n3 - n1) in
+    0 <= (b3 - Y) * c - inject_Z (oy + k) /\ (b3 - Y) * c - inject_Z (oy + k) < 1.
+Proof. exact sub_extent_error_y. Qed.
+
+(* The convex-combination bound behind both (any two offsets obtained by rounding down): *)
+Theorem paste_error_bound :
   forall (P0 P2 : Q) (o0 o2 k : Z),
     0 <= P0 - inject_Z o0 -> P0 - inject_Z o0 < 1 -> 0 <= P2 - inject_Z o2 -> P2 - inject_Z o2 < 1 ->
     (0 < o2 - o0)%Z -> (0 <= k <= o2 - o0)%Z ->
@@ -137,3 +160,25 @@ Theorem untouched_only_if_equal :
     Qabs (s0 - d0) < (d2 - d0) / inject_Z dw / 10 /\ Qabs (s1 - d1) < (d2 - d0) / inject_Z dw / 10 /\
     Qabs (s2 - d2) < (d3 - d1) / inject_Z dh / 10 /\ Qabs (s3 - d3) < (d3 - d1) / inject_Z dh / 10.
 Proof. exact Geo_proofs.untouched_only_if_equal. Qed.
+
+(* WMTS: for KVP GetTile, KVP GetFeatureInfo and RESTful GetTile the bbox used is the rectangle that the address
+   (TileCol, TileRow counted from the north-west corner) denotes, on grids numbered from either corner, for every
+   level whose tiled area ends at the top of the grid bbox (the condition under which a grid is offered through
+   WMTS); so KVP GetFeatureInfo is forwarded for the tile that GetTile serves (F6, repaired).  The same holds for
+   RESTful GetFeatureInfo only on grids numbered from the north ... *)
+Theorem wmts_featureinfo_bbox :
+  forall g r col row l,
+    r <> RestFeatureInfo \/ ul g = true ->
+    misalign g l = 0%Z ->
+    wmts_bbox g r col row l =
+      match limit_tile g col row l with Some _ => Some (wmts_rectangle g col row l) | None => None end.
+Proof. exact wmts_bbox_is_rectangle. Qed.
+
+(* ... and is false for RESTful GetFeatureInfo on a grid numbered from the south (known finding
+   fi:wmts-rest-wrong-tile, proposed_fixes/C01-wmts-rest-featureinfo-origin.md): witness. *)
+Theorem wmts_rest_featureinfo_refuted :
+  exists g col row l,
+    wf g /\ valid_level g l = true /\ misalign g l = 0%Z /\
+    wmts_bbox g RestTile col row l = Some (wmts_rectangle g col row l) /\
+    wmts_bbox g RestFeatureInfo col row l <> Some (wmts_rectangle g col row l).
+Proof. exact Geo_proofs.wmts_rest_featureinfo_refuted. Qed.
